@@ -49,6 +49,11 @@ func Directed() []commitx.Program {
 			Target: []commitx.Op{{Store: 0, Kind: "rm", Key: 5}, {Store: 0, Kind: "rm", Key: 4}, {Store: 0, Kind: "rm", Key: 3}}},
 		// first root of an empty store
 		{Slot: []int{4}, Exists: []bool{true}, Target: []commitx.Op{add(0, 7, "x")}},
+		// removal of nodes that an EARLIER commit had updated (their handles carry both physical ids, the inactive one
+		// obsolete with WorkInProgressTimestamp = 1): recovery's rollbackRemovedNodes zeroes the timestamp (C08-F4)
+		{Slot: []int{2}, Exists: []bool{true}, Setup: [][]commitx.Op{{add(0, 1, "a"), add(0, 2, "b"), add(0, 3, "c"), add(0, 4, "d"), add(0, 5, "e")},
+			{{Store: 0, Kind: "upd", Key: 5, Val: "E"}, {Store: 0, Kind: "upd", Key: 4, Val: "D"}, {Store: 0, Kind: "upd", Key: 3, Val: "C"}}},
+			Target: []commitx.Op{{Store: 0, Kind: "rm", Key: 5}, {Store: 0, Kind: "rm", Key: 4}, {Store: 0, Kind: "rm", Key: 3}}},
 		// a second store created by the crashed transaction
 		{Slot: []int{4, 4}, Exists: []bool{true, false}, Setup: [][]commitx.Op{{add(0, 1, "a")}},
 			Target: []commitx.Op{add(0, 2, "b"), add(1, 9, "z")}},
@@ -250,6 +255,50 @@ func (x *Exp) Signature(kind string) string {
 	return "C08/" + kind + ":" + x.Window()
 }
 
+// blockedNodes: nodes of the dead transaction's write set (updated or removed) whose handle, after recovery, can never be
+// reserved by a later writer — marked deleted or both physical ids in use, with WorkInProgressTimestamp == 0, so that
+// AllocateID returns nil and IsExpiredInactive() is false for ever — and that were not in that condition before the commit.
+func (x *Exp) blockedNodes() []string {
+	stuck := func(f []string) bool { // lid A B activeB version wip deleted
+		return len(f) == 7 && f[5] == "0" && (f[6] == "1" || (f[1] != "0" && f[2] != "0"))
+	}
+	ws := map[string]bool{}
+	before := map[string]bool{}
+	for _, l := range x.Pre.InitLines {
+		f := strings.Fields(l)
+		if len(f) == 8 && f[0] == "h" && stuck(f[1:]) {
+			before[f[1]] = true
+		}
+		if len(f) > 0 && f[0] == "store" {
+			for _, kv := range f[1:] {
+				if strings.HasPrefix(kv, "upd=") || strings.HasPrefix(kv, "rem=") {
+					for _, e := range strings.Split(kv[4:], ",") {
+						if e != "-" && e != "" {
+							ws[strings.SplitN(e, ":", 2)[0]] = true
+						}
+					}
+				}
+			}
+		}
+	}
+	var out []string
+	i := strings.Index(x.Rec.RecState, "reg=[")
+	if i < 0 {
+		return nil
+	}
+	rest := x.Rec.RecState[i+5:]
+	if j := strings.Index(rest, "]"); j >= 0 {
+		rest = rest[:j]
+	}
+	for _, h := range strings.Fields(rest) {
+		f := strings.Split(h, ":")
+		if len(f) == 7 && ws[f[0]] && !before[f[0]] && stuck(f) {
+			out = append(out, h)
+		}
+	}
+	return out
+}
+
 func (x *Exp) detail() string {
 	return fmt.Sprintf("program %s setup=%v target=%v crash before call %d of Commit (%s); before=%s expected=%s after-recovery=%s err=%q walk=%v follow-up=%v %s recovery=%v",
 		x.Prog.Header(), x.Prog.Setup, x.Prog.Target, x.K, x.Window(), x.Pre.Before, x.Pre.Expected, x.Rec.After, x.Rec.AfterErr, x.Rec.Problems, x.Rec.FollowOK, x.Rec.FollowErr, x.Rec.RecTrace)
@@ -289,10 +338,17 @@ func Emit(s *hx.Session, x *Exp, prop string, offsets string) {
 			s.Fail(x.Signature("neither"), "after crash + recovery a cold reader sees neither the state before the transaction nor the state after it", x.detail())
 		case strings.HasSuffix(v, "dangling"):
 			s.Fail(x.Signature("dangling"), "after crash + recovery a live handle points at a missing blob", x.detail())
+		case !okF && len(x.blockedNodes()) > 0:
+			s.Fail("C08/follow-up-blocked-by-zeroed-timestamp-on-two-id-handle",
+				"after crash + recovery a node of the dead transaction's write set can never be reserved again (both physical ids in use, WorkInProgressTimestamp 0): the fault-free follow-up writer fails: "+why,
+				"blocked handles "+strings.Join(x.blockedNodes(), " ")+"; "+x.detail())
 		case !okF:
 			s.Fail(x.Signature("follow-up"), "after crash + recovery a fault-free writer on the same keys does not commit its values: "+why, x.detail())
 		case x.Rec.CrashedLog || x.Rec.CrashedPlg:
 			s.Fail("C08/logs-remain:"+x.Window(), "the recovery entry points left the dead transaction's log files", x.detail())
+		}
+		if len(x.blockedNodes()) > 0 {
+			s.Hit("blocked_node_after_recovery")
 		}
 		if okF {
 			s.Hit("follow_up_ok")
@@ -353,7 +409,11 @@ func Campaign(o hx.RunOpts, prop string, rule string) error {
 		}
 		offsets = strings.Join(offs, ",")
 	}
+	onlyProg, onlyK := os.Getenv("VERIF_ONLY_PROG"), os.Getenv("VERIF_ONLY_K") // debugging aid: restrict the campaign
 	for pi, pr := range progs {
+		if onlyProg != "" && fmt.Sprint(pi) != onlyProg {
+			continue
+		}
 		ref, err := RunOne(pr, 0, "", 0)
 		if err != nil {
 			return err
@@ -379,6 +439,9 @@ func Campaign(o hx.RunOpts, prop string, rule string) error {
 						}
 					}
 					sample = (k+pi+mi)%stride == 0
+				}
+				if onlyK != "" {
+					sample = fmt.Sprint(k) == onlyK
 				}
 				if !sample {
 					continue
